@@ -1,4 +1,4 @@
-//@@ unit props=C10,C17,C01,C16,C06
+//@@ unit props=C10,C17,C01,C16,C06,C07
 // Unit xlsxparts: the remaining part readers of the xlsx reader (src/xlsx/mod.rs), verbatim text, under contract against the GHOST MODEL of
 // quick-xml and zip of unit xlsxwb (assumptions A-xml / A-zip of DESIGN.md section 5; stand-in copied from units/xlsxwb/unit.rs and
 // extended: attribute-name uniqueness in `Ev::wf`, `Attributes::attrs()`, borrowed attribute values, `LocalName` equality / `From<QName>`,
@@ -1770,12 +1770,12 @@ pub open spec fn merge_cells_of(sh: Seq<(String, String)>, c: ZipContent, name: 
 //@@ impl src/xlsx/mod.rs Xlsx
 #[verifier::loop_isolation(false)]
 #[verifier::allow_complex_invariants]
-//@@ fn src/xlsx/mod.rs Xlsx::worksheet_merge_cells props=C17 entry ret=r
+//@@ fn src/xlsx/mod.rs Xlsx::worksheet_merge_cells props=C17,C07 entry ret=r
 //@@ sig
     ensures
-        //# C17.worksheet_merge_cells_frame
+        //# C17,C07.worksheet_merge_cells_frame
         final(self).but_merged() == old(self).but_merged() && final(self).g_merged() == old(self).g_merged(),
-        //# C17.merge_cells_of_the_named_sheet
+        //# C17,C07.merge_cells_of_the_named_sheet
         merge_cells_of(old(self).g_sheets()@, content(old(self).g_zip()), name@, r),
 //@@ closure 0
     -> (res: bool) ensures
@@ -1956,7 +1956,7 @@ proof fn witness_rl_part(ns: Seq<u8>, id: Seq<u8>, t_raw: Seq<u8>, t: Seq<char>)
 //@@ impl src/xlsx/mod.rs Xlsx
 #[verifier::loop_isolation(false)]
 #[verifier::allow_complex_invariants]
-//@@ fn src/xlsx/mod.rs Xlsx::read_relationships props=C01 entry ret=r
+//@@ fn src/xlsx/mod.rs Xlsx::read_relationships props=C01,C07 entry ret=r
 //@@ sig
     ensures
         //# C01.read_relationships_frame
@@ -1964,7 +1964,7 @@ proof fn witness_rl_part(ns: Seq<u8>, id: Seq<u8>, t_raw: Seq<u8>, t: Seq<char>)
             && final(self).formats == old(self).formats && final(self).is_1904 == old(self).is_1904 && final(self).metadata == old(self).metadata
             && final(self).merged_regions == old(self).merged_regions && final(self).options == old(self).options
             && content(final(self).zip) == content(old(self).zip),
-        //# C01.missing_relationships_part_is_an_error
+        //# C01,C07.missing_relationships_part_is_an_error
         !has_part(content(old(self).zip), rels_path()) ==> r is Err && r->Err_0 is FileNotFound,
         //# C01.relationship_targets_by_id
         ({ let evs = part_events(content(old(self).zip), rels_path());
